@@ -283,10 +283,13 @@ def _cfg_evm(tier):
         if tier == "quick" and d["nx"] == 3 and d["nsurf"] == 2 and d["ground"]:
             continue
         out.append(d)
+        # the same component is instantiated a second time with the force points as evaluation points
+        if d["nx"] == 2 and (tier == "thorough" or d["nsurf"] == 2):
+            out.append(dict(d, eval="force_pts"))
     return out
 
 
-Case("EvalVelMtx", _cfg_evm, _evm_make, _evm_pt, tags=("side", "ground", "nsurf"), opts=dict(typ={"alpha": 1.0}))
+Case("EvalVelMtx", _cfg_evm, _evm_make, _evm_pt, tags=("side", "ground", "nsurf", "eval"), opts=dict(typ={"alpha": 1.0}))
 
 from openaerostruct.aerodynamics.mtx_rhs import VLMMtxRHSComp  # noqa: E402
 
